@@ -1135,3 +1135,8 @@ mut("C11", "r10-empty-token-printed-bare", "database/query/parser.go",
 mut("C11", "r10-two-quotes-for-short-tokens", "database/query/parser.go",
     "\tif token == \"\" {\n\t\treturn `\"\"`\n\t}\n", "\tif len(token) <= 1 {\n\t\treturn `\"\"`\n\t}\n",
     "C11-R10|database/query.escapeString", comment="the empty-token form returned for a non-empty token")
+
+mut("C02", "r24-delete-without-record-lock", "database/interface.go",
+    "\tr.Lock()\n\tdefer r.Unlock()\n\n\ti.options.Apply(r)\n\tr.Meta().Delete()\n", "\ti.options.Apply(r)\n\tr.Meta().Delete()\n",
+    "C02-R24|database.(*Interface).Delete", comment="reverts fix a9dfa07")
+clone("C02-r24-delete-without-record-lock", "C14", "r15-delete-without-record-lock", "C14-R15|database.(*Interface).Delete", "reverts fix a9dfa07")
